@@ -175,7 +175,7 @@ def break_lines(card, rng, comments=True):
 
 
 def restyle(text, rng, features=None):
-    feats = features or {k: rng.random() < 0.7 for k in ('case', 'blank', 'break', 'comment', 'message', 'number', 'short')}
+    feats = features or {k: rng.random() < 0.7 for k in ('case', 'blank', 'break', 'comment', 'message', 'number', 'short', 'indent')}
     if features is None:
         # how the file ends: blank-line terminator + newline (as rendered), a bare newline, nothing at all after the last
         # character of the last card, or a few blank lines
@@ -200,10 +200,14 @@ def restyle(text, rng, features=None):
             if feats.get('blank'):
                 c = reblank(c, rng)
             if feats.get('break'):
-                out += break_lines(c, rng, comments=feats.get('comment'))
+                mine = break_lines(c, rng, comments=feats.get('comment'))
             else:
                 from .deck import wrap_card
-                out += wrap_card(c).split('\n')
+                mine = wrap_card(c).split('\n')
+            if feats.get('indent') and mine and rng.random() < 0.3 and not mine[0].startswith((' ', '\t')):
+                # a card may start anywhere in columns 1–5
+                mine[0] = ' ' * rng.randint(1, 4) + mine[0]
+            out += mine
             if feats.get('comment') and rng.random() < 0.25:
                 out.append(rng.choice(['c between cards', 'C', '   c   ---- ', 'c 1 2 3 4']))
         return out
